@@ -45,7 +45,7 @@ func zzOptsFor(algo int, withURL bool, urlStr string) *Options {
 	return o
 }
 
-var zzPageURLs = []string{"http://h.t/a?page=2", "http://h.t/story/2", "http://h.t/plain/", "http://h.t/list?cat=2&page=2", "http://h.t/archive?page=2"}
+var zzPageURLs = []string{"http://h.t/a?page=2", "http://h.t/story/2", "http://h.t/plain/", "http://h.t/list?cat=2&page=2", "http://h.t/archive?page=2", "http://h.t/x/2"}
 
 // HarnessC11Orders: Apply on the same bytes under different map-iteration
 // orders (insertion order, reversed, rotated) gives identical results. The
